@@ -1,6 +1,5 @@
 import Driver.Proto
 import Model.RateLimiter
-import Model.RateLimiterInt
 import Model.RateLimiterWindow
 import Model.RateLimiterRW
 open Proto RL
@@ -46,15 +45,6 @@ def DS.answers (d : DS) (s s' : S) : String :=
   " ".intercalate (sorted.map fun a => "r" ++ toString a.1 ++ "=" ++ ansStr a.2)
 
 def DS.capStr (d : DS) (l : Nat) (ap : Bool) : String := toString (capOf d.s l ap)
-
-/-- the decisions of `Use` computed twice: in Go's wrapping 64-bit ints, expression by expression as the code writes them
-    (`Model/RateLimiterInt.lean`), and on the model's naturals.  `C16.go_int_arithmetic_is_model_arithmetic` proves that
-    they agree on every reachable state; the driver runs both on every `use` line and says so if they ever differ. -/
-def intAgrees (s : S) (l amt : Nat) : Bool :=
-  fitsGo s.cap s.used (s.chain l) amt == fits s.cap s.used (s.chain l) amt &&
-  rootGuardGo s.cap s.used == decide (s.used 0 < s.cap 0) &&
-  (!fits s.cap s.used (s.chain l) amt ||
-    (s.chain l).all fun x => chargeGo s.used (s.chain l) amt x == ((charge s.used (s.chain l) amt x : Nat) : Int))
 
 /-- the whole state of the tree after a call, as the white-box harness prints it (`go/overlay/c16_rate_dump.go`):
     capacity, used (open limiters only), last and closed flag of every limiter, and the waiting queue in order as
@@ -215,7 +205,6 @@ def step (st : Option DS) (line : String) : Option DS × String :=
         let out := match s'.answered.find? (fun x => x.1 == s.nextReq) with
           | some x => ansStr x.2
           | none => "pending"
-        let out := if a ≥ 0 && !intAgrees s (d.mid l) a.toNat then "go-int-arithmetic-differs" else out
         (some { d with s := s' }, "r" ++ toString s.nextReq ++ " " ++ out)
       else (st, "bad-handle")
     | _, _ => (st, "bad-op")
